@@ -1352,6 +1352,16 @@ class World:
                 # of the object (complete, current bytes) kept next to it.  The link is a cache file, the copy is
                 # the user's: removing/evicting the entry must remove the link, never the copy.
                 i = int(op["name"].split(":@k")[1]) % len(self.keys)
+                # ... BETWEEN TWO PROCESSES: planting a cache-shaped file under a running cache is the user breaking
+                # the cache, not the cache breaking C18.  The operation only takes effect when the next thing that
+                # happens is a (re)open - whatever a generator profile inserted or the minimiser removed in between
+                # (a thorough soak reported 18d for GET; plant; GET(52 uris); REOPEN - DESIGN 15.5 item 28)
+                ops_ = self.record.get("ops", [])
+                pos_ = [j for j, o in enumerate(ops_) if o is op or o.get("id") == op.get("id")]
+                nxt_ = ops_[pos_[0] + 1] if pos_ and pos_[0] + 1 < len(ops_) else None
+                if self.cache is not None and (nxt_ is None or nxt_.get("op") != "REOPEN"):
+                    self.stats["probes"]["preseed_skipped_cache_running"] = self.stats["probes"].get("preseed_skipped_cache_running", 0) + 1
+                    return
                 # the user names the entry the way the cache names it: as an earlier request returned it, or - when
                 # the cache demonstrably follows the documented naming - by that rule.  Under a naming the run has
                 # not seen yet nothing can be pre-seeded.
